@@ -290,6 +290,7 @@ func init() {
 			seenCreate := 0
 			lib := map[string]*wire.File{} // what direct library calls on the same bytes produce
 			faithful := "same"
+			listConsistent := "same"
 			optionsAgree := "same" // C12: the query parameters select the same options as the library routes
 			for i, op := range ops {
 				margs = append(margs, op.margs...)
@@ -297,6 +298,33 @@ func init() {
 				body, _ := hex.DecodeString(r.Body)
 				if os.Getenv("VERIF_DEBUG") == fmt.Sprint(h) {
 					fmt.Fprintf(os.Stderr, "h%d #%d %s id=%s ct=%s -> %d new=%s\n", h, i, op.Op, op.ID, op.CT, r.Status, r.NewID)
+				}
+				if op.Op == "list" && r.Status == 200 && listConsistent == "same" {
+					// C16: the listing shows exactly the files get returns - same identifiers, same content, count header = length
+					var listed []*wire.File
+					if err := json.Unmarshal(body, &listed); err != nil {
+						listConsistent = fmt.Sprintf("differ:request %d: listing is not a JSON array of files", i)
+					} else {
+						seen := map[string]bool{}
+						for _, lf := range listed {
+							want := lib[lf.ID]
+							switch {
+							case lf == nil || want == nil:
+								listConsistent = fmt.Sprintf("differ:request %d: the listing contains a file that is not stored", i)
+							case msgResult(*lf) != msgResult(*want):
+								listConsistent = fmt.Sprintf("differ:request %d: the listing shows other content for a file than get returns (stale entry)", i)
+							}
+							if lf != nil {
+								seen[lf.ID] = true
+							}
+						}
+						if len(seen) != len(lib) || len(listed) != len(lib) {
+							listConsistent = fmt.Sprintf("differ:request %d: %d files listed, %d stored", i, len(listed), len(lib))
+						}
+						if r.Count != fmt.Sprint(len(listed)) {
+							listConsistent = fmt.Sprintf("differ:request %d: X-Total-Count %s for %d listed files", i, r.Count, len(listed))
+						}
+					}
 				}
 				if d := libraryVerdict(lib, op, r, body, created[:min(seenCreate, len(created))]); d != "" && faithful == "same" {
 					faithful = fmt.Sprintf("differ:request %d (%s): %s", i, op.Op, d)
@@ -346,6 +374,7 @@ func init() {
 			}
 			o.Case("http:seq", strings.Join(obs, "|"), margs...)
 			o.Case("prop:http-faithful", faithful, margs...)
+			o.Case("prop:http-list-consistent", listConsistent, margs...)
 			o.Case("prop:http-options-agree", optionsAgree, margs...)
 			o.Case("prop:http-status-documented", "same", fmt.Sprint(h))
 			o.Case("prop:http-log-isolation", "same", fmt.Sprint(h))
